@@ -472,6 +472,35 @@ func (g *gen) scenario() (*scenario, string) {
 	return sc, kind
 }
 
+// restartScenario: a short chain with instantaneous callbacks; Start, optionally one management pass that
+// stops and restarts the top module, then Shutdown immediately.
+func (g *gen) restartScenario() *scenario {
+	rng := g.rng
+	n := 1 + rng.Intn(3)
+	sc := &scenario{N: n, Deps: make([][]int, n), Nil: make([][3]bool, n), Dur: make([][3]int, n), Fail: map[string]string{}}
+	for i := 1; i < n; i++ {
+		sc.Deps[i] = []int{i - 1}
+	}
+	for i := 0; i < n; i++ {
+		sc.Dur[i][2] = rng.Intn(3) // the stop routine may take a moment: an early "stopped" is then visible
+	}
+	switch rng.Intn(3) {
+	case 0:
+		sc.Ops = []string{"S", "X"}
+	case 1:
+		sc.Mgmt = true
+		for i := 0; i < n; i++ {
+			sc.Ops = append(sc.Ops, fmt.Sprintf("E%d", i))
+		}
+		sc.Ops = append(sc.Ops, "S", "X")
+	default:
+		sc.Mgmt = true
+		top := n - 1
+		sc.Ops = []string{fmt.Sprintf("E%d", top), "S", fmt.Sprintf("D%d", top), "M", fmt.Sprintf("E%d", top), "M", "X"}
+	}
+	return sc
+}
+
 // regression scenarios: run first, every time.
 var corpus = []string{
 	// DESIGN §7 #14: B depends on A, B's start fails, Shutdown must still stop A
@@ -509,7 +538,7 @@ func nontrivial(sc *scenario, hist []string) bool {
 
 func generate(r *hxlib.Run, emit func(hxlib.Case)) {
 	g := &gen{r: r, rng: r.Rng}
-	total := r.Budget(6000, 300000)
+	total := r.Budget(6000, 200000)
 	type item struct {
 		line, kind string
 		sc         *scenario
@@ -557,6 +586,16 @@ func generate(r *hxlib.Run, emit func(hxlib.Case)) {
 		}
 	}
 	flush()
+	// stop right after start: the module started last is stopped first, within microseconds. This is where
+	// leftovers of a start goroutine can still touch the stop protocol of the same module.
+	for i := 0; i < r.Budget(24000, 400000); i++ {
+		sc := g.restartScenario()
+		batch = append(batch, item{sc.line(), "stop-right-after-start", sc})
+		if len(batch) >= 2048 {
+			flush()
+		}
+	}
+	flush()
 	// malformed stream: lines the acceptor must refuse to interpret (never default silently); the executor refuses them too
 	for _, l := range []string{"scn", "scn x 0 - - 0 - - S", "scn 2 0 -|5 000|000 0 0.0.0|0.0.0 - S", "beg start 0", "obs 5 1 0", "frobnicate"} {
 		emit(hxlib.Case{Lines: []string{l}, Kind: "malformed"})
@@ -566,7 +605,8 @@ func generate(r *hxlib.Run, emit func(hxlib.Case)) {
 const rule = "one case = one scenario executed on the real module system: a generated dependency graph (random DAGs, chains, layers, fans, diamonds, trees; " +
 	"1-12 modules quick, 1-16 thorough; registration order is not a topological order), callbacks with generated run times, a generated set of " +
 	"prep/start/stop callbacks that fail or panic, nil callbacks, and a sequence Start, Enable/Disable+ManageModules…, Shutdown (plus glue: double " +
-	"Start/Shutdown, late Register, cycles, unregistered dependencies). The recorded history (callback begin/end in global order, return values, " +
+	"Start/Shutdown, late Register, cycles, unregistered dependencies), plus a class of short chains with instantaneous callbacks where the " +
+	"module started last is stopped (and restarted) within microseconds. The recorded history (callback begin/end in global order, return values, " +
 	"status/enabled/enabled-as-dependency of every module after each call) is replayed through the Lean model (acceptor) and judged by the monitor. " +
 	"Non-trivial: at least 2 modules, at least one dependency edge and at least two start routines ran; distinct by hash of scenario + history."
 
